@@ -229,6 +229,31 @@ def run(ctx):
 
     timing["semantic_eval_s"] = round(time.time() - t, 1)
 
+    # ---- T validation / search for the generated iterator: drive the GENERATED __next__ over
+    # ---- arrays of distinct elements and compare with Python's iteration order
+    iter_checked = 0
+    if (vlib.COQ / "C19" / "ModelIter.vo").exists():
+        ns_it = [0, 1, 2, 3, 5] + ([8, 17] if thorough else [])
+        body = ("From Coq Require Import ZArith List String.\nFrom V.C19 Require Import Array GenIter ModelIter.\n"
+                "Import ListNotations.\nOpen Scope Z_scope.\nEval vm_compute in [\n" + ";\n".join(
+                    f"enc_outcome (for_loop_elements {n} (VArr [" + "; ".join(f"Some (VRes {100 + k})" for k in range(n)) + "]))"
+                    for n in ns_it) + "].\n")
+        try:
+            got = vlib.parse_coq_values(ctx.coq_eval("iter", body))[0]
+            for n, g in zip(ns_it, got):
+                iter_checked += 1
+                want = L.enc_ok([("res", 100 + k) for k in range(n)])
+                if list(g) != want:
+                    ctx.report(f"iter-order:n={n}", "counterexample",
+                               "for-loop over an array: ArrayIter.__next__/__iter__ (as translated from std/array.py) do not deliver the cells in index order",
+                               {"array": [100 + k for k in range(n)], "expected_elements": [100 + k for k in range(n)],
+                                "observed_encoded": list(g), "encoding": "[0,k,(2,q)*]=Ok list of resources; [1,code]=Panic; [2]=stuck",
+                                "replay": "read ArrayIter.__next__ / array.__iter__ in guppylang/src/guppylang/std/array.py; "
+                                          "coq/C19/GenIter.v is their translation; evaluate `for_loop_elements` of coq/C19/ModelIter.v on the array"})
+                    break
+        except (RuntimeError, ValueError, SyntaxError) as e:
+            ctx.notes.append(f"iterator evaluation failed: {str(e)[-800:]}")
+
     def show(v):
         return json.loads(json.dumps(v))
 
@@ -288,7 +313,7 @@ def run(ctx):
         evaluations=stats["semantic_cases"] + stats["programs"], distinct_nontrivial=stats["semantic_nontrivial"],
         rule="evaluations = abstract-machine runs of emitted sequences (each also run on the model sequence and the Python list spec) + compiled programs; non-trivial = the specification expects a result (valid index, cell present), the rest must panic",
         traces_validated_against_impl=stats["syntactic_equal"], stats=stats, samples=samples,
-        unevaluable_sequences=sorted(unevaluable), timing=timing, notes=ctx.notes)
+        unevaluable_sequences=sorted(unevaluable), iterator_orders_checked=iter_checked, timing=timing, notes=ctx.notes)
     return ctx.finish(LEVEL, cov, ["array length n <= 2^63 and usize is 64 bit",
                                    "HUGR op semantics as written in coq/C19/Array.v (trusted spec)",
                                    "for-loop / comprehension drivers call __next__ until Nothing (C03/C18 territory)"])
